@@ -21,7 +21,7 @@ def _alarm(signum, frame):
     raise _Timeout()
 
 
-def guarded(fn, secs=20):
+def guarded(fn, secs=10):
     signal.signal(signal.SIGALRM, _alarm)
     signal.setitimer(signal.ITIMER_REAL, secs)
     try:
@@ -95,7 +95,11 @@ def replay(cfg, events):
                 return {"k": "ok"}
             if op == "iadd":
                 cc = c
-                cc += [v.term(x) for x in e["xs"]]
+                if e.get("self"):
+                    # the collection as its own operand: c += c doubles the list (and comes to an end)
+                    cc += cc
+                else:
+                    cc += [v.term(x) for x in e["xs"]]
                 return {"k": "ok"}
             if op == "setitem":
                 c[e["i"]] = v.term(e["x"])
@@ -141,9 +145,13 @@ def replay(cfg, events):
             raise ValueError(op)
 
         try:
-            e["res"] = guarded(call)
+            e["res"] = guarded(call, 3 if e.get("self") else 10)      # (c += c: a run-away would also eat memory)
         except _Timeout:
+            # the call did not come to an end: nothing after it is observed (the graph may have grown without bound)
             e["res"] = {"k": "timeout"}
+            e["list"], e["len"], e["cells"] = [], -1, []
+            evs.append(e)
+            break
         except Exception as ex:  # noqa: BLE001
             e["res"] = {"k": "raise", "e": type(ex).__name__}
         corrupt = corrupt or op == "corrupt"
